@@ -51,6 +51,8 @@ type C19Plan struct {
 	// RegLoss k > 0: the connection dies while the RegisterRM request of the k-th
 	// resource is in flight (the client has the resource, the coordinator not yet)
 	RegLoss int   `json:"reg_loss,omitempty"`
+	// Servers (reconnect mode): 1 or 2 coordinators the client is connected to
+	Servers int `json:"servers,omitempty"`
 	Tape    []int `json:"tape"`
 }
 
@@ -110,6 +112,7 @@ func genC19(seed uint64, tier, mode string) *C19Plan {
 	case "reconnect":
 		p.Policy = simkit.Pick(g, c19Policies[:5])
 		p.Resources = g.Range(1, 3)
+		p.Servers = simkit.Pick(g, []int{1, 1, 2})
 		n := g.Range(1, 3)
 		for i := 0; i < n; i++ {
 			p.Losses = append(p.Losses, simkit.Pick(g, []string{"idle", "inflight", "between-phases"}))
@@ -364,6 +367,12 @@ func c19Reconnect(seed uint64, tape *simkit.Tape, plan *C19Plan, res *Result) {
 	tcc.InitTCC()
 	net.Open(TCAddr)
 	sim.Run(func() bool { return tc.SessionIsTM(0) && sim.Enabled() == 0 })
+	if plan.Servers == 2 {
+		// a second coordinator of the cluster: every session must know the client
+		// as TM and as RM of every resource, whichever session the balancer likes
+		s2 := net.Open(c19Addrs[1])
+		sim.Run(func() bool { return tc.SessionIsTM(s2.SimID()) && sim.Enabled() == 0 })
+	}
 
 	// register the resources (sends RegisterRM on the first session)
 	nres := plan.Resources
@@ -461,6 +470,10 @@ func c19Reconnect(seed uint64, tape *simkit.Tape, plan *C19Plan, res *Result) {
 			break
 		}
 		g := tc.Globals[xid]
+		before := map[int]bool{}
+		for _, ls := range net.Sessions() {
+			before[ls.SimID()] = true
+		}
 		sim.Fault("session-loss-" + loss)
 		switch loss {
 		case "between-phases":
@@ -486,8 +499,17 @@ func c19Reconnect(seed uint64, tape *simkit.Tape, plan *C19Plan, res *Result) {
 		// wait for the new session and give the client time to announce itself
 		t3 := sim.Now()
 		sim.Run(func() bool {
-			s := liveSession()
-			return s != nil && sim.Now()-t3 > 30*time.Second && sim.Enabled() == 0
+			live := 0
+			for _, ls := range net.Sessions() {
+				if !ls.IsClosed() {
+					live++
+				}
+			}
+			want := 1
+			if plan.Servers == 2 {
+				want = 2
+			}
+			return (live >= want && sim.Now()-t3 > 30*time.Second && sim.Enabled() == 0) || sim.Now()-t3 > 300*time.Second
 		})
 		s := liveSession()
 		res.Episodes++
@@ -496,22 +518,30 @@ func c19Reconnect(seed uint64, tape *simkit.Tape, plan *C19Plan, res *Result) {
 			sim.Violate("C19", "setup", "no-reconnect", "harness: no session after reconnect interval")
 			break
 		}
-		sid := s.SimID()
-		if !tc.SessionIsTM(sid) {
-			sim.Violate("C19", "reannounce-tm", "no-register-tm", "loss #%d (%s): no RegisterTM on the new session s%d", li, loss, sid)
-		}
-		have := map[string]bool{}
-		for _, r := range tc.SessionResources(sid) {
-			have[r] = true
-		}
+		_ = s.SimID()
 		var missing []string
-		for _, a := range acts {
-			if !have[a.name] {
-				missing = append(missing, a.name)
+		for _, ls := range net.Sessions() {
+			if ls.IsClosed() || before[ls.SimID()] {
+				continue // (the property speaks of re-established connections)
 			}
-		}
-		if len(missing) > 0 {
-			sim.Violate("C19", "reannounce-rm", "no-register-rm", "loss #%d (%s): the new session s%d was not registered as resource manager for %v (registered: %v)", li, loss, sid, missing, tc.SessionResources(sid))
+			lsid := ls.SimID()
+			if !tc.SessionIsTM(lsid) {
+				sim.Violate("C19", "reannounce-tm", "no-register-tm", "loss #%d (%s): no RegisterTM on the new session s%d", li, loss, lsid)
+			}
+			have := map[string]bool{}
+			for _, r := range tc.SessionResources(lsid) {
+				have[r] = true
+			}
+			var miss []string
+			for _, a := range acts {
+				if !have[a.name] {
+					miss = append(miss, a.name)
+				}
+			}
+			if len(miss) > 0 {
+				sim.Violate("C19", "reannounce-rm", "no-register-rm", "loss #%d (%s): the new session s%d was not registered as resource manager for %v (registered: %v)", li, loss, lsid, miss, tc.SessionResources(lsid))
+				missing = miss
+			}
 		}
 		// phase two for the earlier branches must reach the client (the model,
 		// like the real TC, only routes to a session that registered the resource)
